@@ -254,10 +254,13 @@ class PowerGas(Gas):
 
     def write(self, output):
         gas_entry = super().write(output)
-        gas_entry.write_scalar('alpha', self.alpha)
-        gas_entry.write_scalar('mix_ratio_surface', self.mixRatioSurface)
-        gas_entry.write_scalar('beta',self.beta)
-        gas_entry.write_scalar('gamma',self.gamma)
+        gas_entry.write_string('profile_type', self._profile_type)
+        # Coefficients left to the automatic profile are None
+        for name, value in (('alpha', self.alpha),
+                            ('mix_ratio_surface', self.mixRatioSurface),
+                            ('beta', self.beta), ('gamma', self.gamma)):
+            if value is not None:
+                gas_entry.write_scalar(name, value)
 
         return gas_entry
 
